@@ -33,7 +33,7 @@ LEVEL_TEXT = (
 )
 LEVEL_NOTE = "Trusts the step observer (live WORKING vs displayed READY on absence steps) and the dump of all logs."
 
-CFG_A = gen.Cfg(warm=4, facilities=True, max_time=[40, 80], float_mode=8, abs_max=14, abs_p=2, abs_size=6)
+CFG_A = gen.Cfg(warm=2, facilities=True, max_time=[40, 80], float_mode=8, abs_max=14, abs_p=2, abs_size=6)
 CFG_B = gen.Cfg(
     servable=3,
     rules=[0, 1, 2, 3, 4, 4, 4, 4, 5, 6, 7, 8],  # FIFO counts log entries: the rule most exposed to absence steps
@@ -55,18 +55,25 @@ def _spec_b(draw, cfg):
     return spec
 
 
+# every model has lived before (warm start, calendars edited in place half of the time), every resource has a calendar
+CFG_A_WARM = CFG_A.copy(warm=1, abs_p=1, min_comps=1, min_wps=1, float_mode=0)
+
+
 def strategy(tier):
     if tier == "quick":
-        return st.one_of(gen.model_spec(CFG_A), _spec_b(CFG_B))
+        return st.one_of(gen.model_spec(CFG_A), gen.model_spec(CFG_A), _spec_b(CFG_B), _spec_b(CFG_B), gen.model_spec(CFG_A_WARM))
     return st.one_of(
         gen.model_spec(CFG_A.copy(max_tasks=12, max_workers=8)),
+        gen.model_spec(CFG_A.copy(max_tasks=12, max_workers=8)),
         _spec_b(CFG_B.copy(max_tasks=12, max_workers=8)),
+        _spec_b(CFG_B.copy(max_tasks=12, max_workers=8)),
+        gen.model_spec(CFG_A_WARM.copy(max_tasks=12, max_workers=8)),
     )
 
 
 def budget(tier):
     if tier == "quick":
-        return {"cases": 2400, "shards": 4}
+        return {"cases": 3000, "shards": 6}
     return {"cases": 160000, "shards": 16}
 
 
